@@ -28,12 +28,18 @@ type cliCase struct {
 	Shuffle                            bool
 	Seed                               int64
 	Run                                bool // `twins run --log-all` (executes every scenario) instead of `twins generate`
+	Workers                            uint `json:",omitempty"` // run: --concurrency (0 here means 1)
+	FromFile                           bool `json:",omitempty"` // run: the scenarios are first written by `twins generate` and then read back with --input
+	Extra                              int  `json:",omitempty"` // run from a file: --scenarios = announced + Extra (more than the file holds)
 }
 
 func (c cliCase) String() string {
 	cmd := "generate"
 	if c.Run {
-		cmd = "run --log-all --ticks 10"
+		cmd = fmt.Sprintf("run --log-all --ticks 10 --concurrency %d", max(c.Workers, 1))
+		if c.FromFile {
+			cmd += fmt.Sprintf(" --input <file written by generate> --scenarios announced+%d", c.Extra)
+		}
 	}
 	s := fmt.Sprintf("twins %s --replicas %d --twins %d --partitions %d --views %d", cmd, c.Replicas, c.Twins, c.Partitions, c.Views)
 	if c.PerFile > 0 {
@@ -77,7 +83,24 @@ func cliProp(c cliCase) common.Result {
 	numReplicas, numTwins, numPartitions, numViews = c.Replicas, c.Twins, c.Partitions, c.Views
 	numScenarios, numScenariosPerFile, numTicks = 0, c.PerFile, 10
 	shuffle, randSeed = c.Shuffle, c.Seed
-	twinsSrc, twinsConsensus, logAll, concurrency = "", "chainedhotstuff", true, 1
+	twinsSrc, twinsConsensus, logAll, concurrency = "", "chainedhotstuff", true, max(c.Workers, 1)
+	if c.Run && c.FromFile {
+		// write the scenarios with `twins generate` first, then run them from that file
+		twinsDest = filepath.Join(dir, "in.json")
+		concurrency = 1
+		perFile := numScenariosPerFile
+		numScenariosPerFile = 0
+		if p := guarded(twinsGenerate); p != "" {
+			return common.Fail("cli-panics", "%v: generate panics: %s", c, p)
+		}
+		numScenariosPerFile = perFile
+		twinsSrc = twinsDest
+		concurrency = max(c.Workers, 1)
+		numScenarios = uint64(announced) + uint64(c.Extra)
+		if c.Extra == 0 {
+			numScenarios = 0
+		}
+	}
 	twinsDest = filepath.Join(dir, "out.json")
 	if c.PerFile > 0 {
 		twinsDest = filepath.Join(dir, "out")
@@ -155,6 +178,9 @@ func cliProp(c cliCase) common.Result {
 		if total == announced-1 {
 			fp = "generator-loses-last-scenario"
 		}
+		if c.Run && total < announced && (c.Workers > 1 || c.FromFile) {
+			fp = "run-executes-fewer-than-announced"
+		}
 		what := "written"
 		if c.Run {
 			what = "executed and logged"
@@ -201,6 +227,11 @@ func TestC18CLI(t *testing.T) {
 		}
 		if c.Run {
 			c.Views = 1 // every scenario is executed: keep the count at <= 261
+			c.Workers = rapid.SampledFrom([]uint{1, 1, 2, 3, 5, 8}).Draw(rt, "workers")
+			if rapid.IntRange(0, 2).Draw(rt, "from-file") == 0 {
+				c.FromFile = true
+				c.Extra = rapid.SampledFrom([]int{0, 0, 1, 3}).Draw(rt, "extra")
+			}
 		}
 		if rapid.Bool().Draw(rt, "dir") {
 			c.PerFile = uint64(rapid.IntRange(1, 40).Draw(rt, "perfile"))
